@@ -20,6 +20,9 @@ PROP = "C18"
 # tracked options: (toml key, kind, default as model value)
 BOOL_ON = "undefined_name"  # error code enabled by default
 BOOL_OFF = "missing_f"  # error code disabled by default
+BOOL_PLAIN = "ignore_none_attributes"  # boolean option that is not an error code
+CODES = (BOOL_ON, BOOL_OFF)
+BOOLS = (BOOL_ON, BOOL_OFF, BOOL_PLAIN)
 INT_OPT = "union_simplification_limit"
 LIST_OPT = "disallow_calls_to_dunders"
 LIST_VALUES = [[], ["a"], ["b", "c"], ["a", "d"], ["d"]]
@@ -123,10 +126,10 @@ def render_stack(stack, d: Path):
 def gen_section(rng, top, nfiles, idx, allow_invalid, chainy):
     """Entries of one section; each keyed entry at most once (TOML)."""
     es = []
-    opts = [BOOL_ON, BOOL_OFF, INT_OPT, LIST_OPT]
+    opts = [BOOL_ON, BOOL_OFF, BOOL_PLAIN, INT_OPT, LIST_OPT]
     for o in opts:
         if rng.random() < (0.55 if top else 0.6):
-            if o in (BOOL_ON, BOOL_OFF):
+            if o in BOOLS:
                 v = rng.random() < 0.5
             elif o == INT_OPT:
                 v = rng.randrange(0, 10)
@@ -233,7 +236,7 @@ def impl_effective(stack, cli, queries, via_visitor=False):
 
                 kwargs = {"config_file": main, "settings": {}}
                 for opt, v in cli:
-                    if opt in (BOOL_ON, BOOL_OFF):
+                    if opt in CODES:
                         kwargs["settings"][getattr(EC, opt)] = v
                     else:
                         kwargs[opt] = v
@@ -247,7 +250,7 @@ def impl_effective(stack, cli, queries, via_visitor=False):
 
         for opt, mp in queries:
             o = options.for_module(tuple(mp))
-            if opt in (BOOL_ON, BOOL_OFF):
+            if opt in CODES:
                 out[(opt, tuple(mp))] = bool(o.is_error_code_enabled(getattr(ErrorCode, opt)))
                 v2 = o.get_value_for(ConfigOption.registry[opt])
                 if bool(v2) != out[(opt, tuple(mp))]:
@@ -264,7 +267,7 @@ def impl_defaults():
     import pyanalyze.name_check_visitor  # noqa: F401
     from pyanalyze.options import ConfigOption
 
-    return {o: ConfigOption.registry[o].default_value for o in (BOOL_ON, BOOL_OFF, INT_OPT, LIST_OPT)}
+    return {o: ConfigOption.registry[o].default_value for o in (BOOL_ON, BOOL_OFF, BOOL_PLAIN, INT_OPT, LIST_OPT)}
 
 
 # ---------------------------------------------------------------------------
@@ -272,7 +275,7 @@ def impl_defaults():
 
 
 def enc_value(opt, v):
-    if opt in (BOOL_ON, BOOL_OFF):
+    if opt in BOOLS:
         return 1 if v else 0
     if opt == INT_OPT:
         return v
@@ -329,7 +332,7 @@ def model_term(stack, cli, opt, mp, defaults):
         table = "(fun z => nth (Z.to_nat z) " + lib.clist([lib.clist([lib.cz(LIST_ATOMS.index(x)) for x in l]) for l in LIST_VALUES]) + " [])"
         d = lib.clist([lib.cz(LIST_ATOMS.index(x)) for x in defaults[opt]])
         return f"effective_concat {files} {lib.clist([lib.cz(v) for v in cli_vals])} {table} {d} {mpc}"
-    is_code = opt in (BOOL_ON, BOOL_OFF)
+    is_code = opt in CODES
     d = enc_value(opt, defaults[opt])
     return f"effective {lib.cbool(is_code)} {files} {lib.clist([lib.cz(v) for v in cli_vals])} {lib.cz(d)} {mpc}"
 
@@ -349,7 +352,7 @@ def decode_model(opt, res):
     if inner is None:
         return "NOTFOUND"
     v = inner[1]
-    if opt in (BOOL_ON, BOOL_OFF):
+    if opt in BOOLS:
         return bool(v)
     return v
 
@@ -395,7 +398,7 @@ def section_value(entries, opt):
     dis = [e[1] for e in entries if e[0] == "disable_all"]
     if explicit:
         return True, explicit[0]
-    if dis and dis[-1] and opt in (BOOL_ON, BOOL_OFF):
+    if dis and dis[-1] and opt in CODES:
         return True, False
     return False, None
 
@@ -474,9 +477,11 @@ def run(tier: str, replay: str | None = None):
         for _ in range(n_rand):
             st = gen_stack(rng, chainy=rng.random() < 0.85)
             cli = []
-            for o in (BOOL_ON, BOOL_OFF, INT_OPT, LIST_OPT):
+            for o in (BOOL_ON, BOOL_OFF, BOOL_PLAIN, INT_OPT, LIST_OPT):
                 if rng.random() < 0.25:
-                    cli.append((o, {BOOL_ON: False, BOOL_OFF: True, INT_OPT: 77, LIST_OPT: ["d"]}[o]))
+                    # truthy and falsy command-line values (a falsy value given on the command line still wins)
+                    cli.append((o, rng.choice({BOOL_ON: [False, True], BOOL_OFF: [True, False], BOOL_PLAIN: [False, True],
+                                               INT_OPT: [77, 0], LIST_OPT: [["d"], []]}[o])))
             cases.append((st, cli, queries_for(rng)))
         for _ in range(n_mal):
             cases.append((gen_stack(rng, malformed=True), [], [()]))
